@@ -2,37 +2,86 @@ from vlib.spec import chx
 
 EXPLANATION = ("CrossHair symbolic execution (z3) of the real MutableFileNode/MutableFileVersion._do_serialized through the real "
                "public entry points, on a real Twisted Deferred chain; the schedule (request/fire/notify interleaving, failure kinds) "
-               "is a vector of symbolic integers constrained to be a valid permutation; every feasible schedule within the bound is a "
-               "solver-decided path.")
+               "is a vector of symbolic choice integers (c_t picks one of the actions enabled at step t, enabledness being defined by what was "
+               "requested/fired, never by the code's state); every schedule within the bound is exactly one solver-decided path. "
+               "NodeMaker cache: symbolic choice among real cap strings and flags. Directory edits: real DirectoryNode methods over the real serializer.")
 ASSUMPTIONS = [
     "the private serialized implementations (_overwrite, _modify, ...) are replaced by harness operations; what is checked is the "
     "serializer chain and the routing of the public methods through it, not what the operations do",
     "foolscap's eventual-send is a harness-owned queue: entries run one at a time from the top of the stack, in the order chosen by the schedule",
     "operations do not invoke serialized methods of the same node from inside their body (documented restriction of _do_serialized)",
+    "node identity is claimed per NodeMaker and while the first node object is still referenced (the cache is a WeakValueDictionary)",
+    "directory contents are a {name: (child, metadata)} dict (pack/unpack replaced by copies); an edit whose publish fails changes nothing",
 ]
 
 _N = {"node": 0, "version": 1}
 
 
-def _cases(n, kinds, rots, raw=False, need_sync=False, classes=("node", "version"), split=False):
+def _cases(n, kinds, rot=0, raw=False, need_sync=False, classes=("node", "version"), split=False, split2=False):
     out = []
     for c in classes:
-        for m in (range(2 ** n) if split else [None]):
-            out.append({"cls": _N[c], "n": n, "kinds": kinds, "nrot": rots, "raw": raw, "need_sync": need_sync, "kmask": m,
-                        "_label": "%s-n%d%s%s" % (c, n, "-raw" if raw else "", "" if m is None else "-m%d" % m)})
+        for k0 in ([[kinds[0]], kinds[1:]] if split else [None]):
+            for k1 in ([[kinds[0]], kinds[1:]] if split2 else [None]):
+                out.append({"cls": _N[c], "n": n, "kinds": kinds, "rot": rot, "raw": raw, "need_sync": need_sync, "k0in": k0, "k1in": k1,
+                            "_label": "%s-n%d-r%d%s%s%s" % (c, n, rot, "-raw" if raw else "", "" if k0 is None else "-k0_" + "".join(map(str, k0)),
+                                                            "" if k1 is None else "-k1_" + "".join(map(str, k1)))})
     return out
 
 
+_ORDER_DESC = ("operation i+1's callable is not invoked before operation i's inner Deferred fired (success or failure), no two run at once, "
+               "each is invoked exactly once with the caller's arguments, every operation starts once its predecessors are done (a failed "
+               "operation does not block later ones), every caller is notified exactly once with its own result/failure, no failure leaks "
+               "into the chain, the chain ends as a fired non-failed Deferred")
+_OUTSIDE = ("what the operations themselves do (servermap update, retrieve, publish); more than n operations (the chain is memoryless: "
+            "after each schedule it is checked to be a fired, unpaused, non-failed Deferred again)")
+
 OBLIGATIONS = [
     chx("serialized_order", "C13_h", "h_serialized",
-        cases={"quick": _cases(3, [0, 1], 1, split=True) + _cases(2, [0, 1], 2, raw=True),
-               "thorough": _cases(3, [0, 1], 2) + _cases(3, [0, 1], 1, raw=True)},
+        cases={"quick": _cases(3, [0, 1], classes=("node",), split=True) + [_cases(3, [0, 1], classes=("version",), split=True)[1]] + _cases(2, [0, 1], raw=True)
+               + _cases(2, [0, 1], rot=3, classes=("node",)) + _cases(2, [0, 1], rot=2, classes=("version",)),
+               "thorough": _cases(3, [0, 1], rot=0, split=True) + _cases(3, [0, 1], rot=1, split=True) + _cases(3, [0, 1], rot=2, split=True) + _cases(3, [0, 1], raw=True, split=True)
+               + _cases(4, [0], rot=0) + _cases(4, [1], rot=3)},
         timeout={"quick": 150, "thorough": 1500},
-        desc="n operations requested through the real public methods of one node; every interleaving of the requests (in order) with the "
-             "firing of the operations' inner Deferreds (any order, also before the operation was requested/started; each succeeding or "
-             "failing): operation i+1's callable is not invoked before operation i's inner Deferred fired, no two run at once, each is "
-             "invoked exactly once with the caller's arguments, every operation starts once its predecessors are done (a failure does "
-             "not block later ones), every caller is notified exactly once with its own result/failure, no failure leaks into the chain",
-        outside="what the operations themselves do; more than n operations (the chain is memoryless: after each operation it is a fired "
-                "Deferred with an empty callback list, checked at the end of each schedule)"),
+        desc="n operations requested through the real public methods of one node (download_best_version/overwrite/upload/modify/get_servermap; "
+             "version: overwrite/modify/read/update; raw: _do_serialized itself with args and kwargs); every interleaving of the requests (in "
+             "order) with the firing of the operations' inner Deferreds (any order, also before the operation was requested or started; each "
+             "succeeding or failing): " + _ORDER_DESC,
+        outside=_OUTSIDE),
+    chx("serialized_sync_bodies", "C13_h", "h_serialized",
+        cases={"quick": _cases(3, [0, 1, 2, 3], need_sync=True, classes=("node",)) + _cases(2, [0, 1, 2, 3], rot=1, need_sync=True, classes=("version",)),
+               "thorough": _cases(3, [0, 1, 2, 3], rot=1, need_sync=True, split=True)},
+        timeout={"quick": 150, "thorough": 1500},
+        desc="same, where at least one operation body returns a plain value or raises synchronously instead of returning a Deferred: " + _ORDER_DESC,
+        outside=_OUTSIDE),
+    chx("serialized_notify", "C13_h", "h_serialized_notify",
+        cases={"quick": _cases(2, [0, 1], rot=1) ,
+               "thorough": _cases(3, [0, 1], rot=1, split=True, split2=True)},
+        timeout={"quick": 150, "thorough": 1800},
+        desc="same, with the delivery of each caller's notification (the eventual-send queued by _do_serialized) as separate schedule actions "
+             "in any order relative to later requests/firings: the notification of caller i is queued as soon as operations 0..i are complete "
+             "(it does not wait for later operations), later operations do not wait for it, and it carries caller i's own result",
+        outside=_OUTSIDE),
+    chx("node_cache", "C13_h", "h_node_cache",
+        cases={"thorough": [{"ar1": a, "bl1": b, "_label": "first-%s-%s" % ("readcap" if a else "writecap", "blacklisted" if b else "plain")}
+                            for a in (False, True) for b in (False, True)]},
+        bounds={"quick": {"ncaps": 15, "pairs": "near"}, "thorough": {"ncaps": 15, "pairs": "all"}}, timeout={"quick": 150, "thorough": 1500},
+        desc="NodeMaker.create_from_cap twice on one NodeMaker with caps chosen from 15 real cap strings (SSK x2, SSK-RO, MDMF, MDMF-RO, DIR2, "
+             "DIR2-RO, DIR2-MDMF, CHK, DIR2-CHK, LIT, and MDMF / MDMF-RO / DIR2-MDMF / DIR2-MDMF-RO spelled with a ':k:segsize' extension suffix), deep_immutable flags, cap passed as writecap or readcap, blacklist on/off (quick: second cap = the same or one of the next two table entries, first call plain; thorough: all pairs and flags): equal cap string and "
+             "equal deep_immutable for a mutable object => the very same node object (hence one serializer), also behind a ProhibitedNode "
+             "wrapper, and the same backing file node for directories; different keys => different objects; every node carries the cap asked "
+             "for; a mutable cap under deep_immutable yields an UnknownNode",
+        outside="the cache is weak: identity is claimed while the first node is still referenced. The file node inside a DirectoryNode is NOT "
+                "shared with a node created from the bare SSK/MDMF cap of the same file (different capability strings; outside the statement). "
+                "Cap strings are drawn from a fixed table (symbolic index), not symbolic bytes"),
+    chx("dir_edits_no_lost_update", "C13_h", "h_dir_edits",
+        cases={"quick": [{"n": 2, "kinds": [0, 1], "_label": "n2"}],
+               "thorough": [{"n": 3, "kinds": [0], "e0": e, "_label": "n3-allok-e%d" % e} for e in range(4)]
+               + [{"n": 2, "kinds": [0, 1], "_label": "n2"}]},
+        timeout={"quick": 150, "thorough": 1500},
+        desc="real DirectoryNode.set_node/delete/set_metadata_for (Adder/Deleter/MetadataSetter.modify) on a real MutableFileNode whose "
+             "serialized _modify is a read-at-start / write-at-finish store with schedule-controlled latency and failures: for every schedule "
+             "and every choice of edits the final directory equals the sequential application, in request order, of the edits whose publish "
+             "succeeded (no lost update), and every caller gets its own result",
+        outside="pack/unpack of directory contents (C19/C20), retries inside modify (UncoordinatedWriteError loop), edits through two different "
+                "node objects"),
 ]
